@@ -35,6 +35,7 @@ import Relic.Driver.Vsix
 import Relic.Driver.Ident
 import Relic.Driver.Xap
 import Relic.Driver.MsiSign
+import Relic.Driver.Dmg
 open Relic
 
 def dispatch (line : String) : String :=
@@ -79,6 +80,7 @@ def dispatch (line : String) : String :=
   | "IDENT" :: rest => Relic.Driver.Ident.handle rest
   | "XAP" :: rest => Relic.Driver.Xap.handle rest
   | "MSIS" :: rest => Relic.Driver.MsiSign.handle rest
+  | "DMG" :: rest => Relic.Driver.Dmg.handle rest
   | _ => "bad-op"
 
 partial def loop (h : IO.FS.Stream) (out : IO.FS.Stream) : IO Unit := do
